@@ -1,12 +1,13 @@
 (* C13 — random generation is always valid, honours pinned fields, and is reproducible.
-   Statements only; proofs in Proofs/RandomGen.v (instantiation), Proofs/RandomFacts.v, Proofs/PlaceFacts.v.
+   Statements only; proofs in Proofs/RandomGen.v, Proofs/RandomConform.v (instantiation), Proofs/RandomFacts.v,
+   Proofs/ConformFacts.v, Proofs/PlaceFacts.v.
    The caller's generator and rstr are oracles of the model: the theorems quantify over everything they can return
    (country index, bank index, the draws); "the draw matches the country's pattern" enters only as "its upper-cased
    form is clean text". *)
 From Coq Require Import Lia ZArith List Bool.
 From Schwifty Require Import Lib.Base Lib.Lit Model.Clean Model.Data Model.Iban Model.Bban Model.Generate Model.Random
   Model.Registry Model.Lookup.
-From Schwifty Require Import Spec.Iso13616 Proofs.CleanFacts Proofs.PlaceFacts Proofs.GenerateFacts Proofs.RandomGen Proofs.RandomTotal.
+From Schwifty Require Import Spec.Iso13616 Proofs.CleanFacts Proofs.PlaceFacts Proofs.GenerateFacts Proofs.RandomGen Proofs.RandomTotal Proofs.RandomConform.
 From Schwifty Require Import Gen.Env Gen.IbanData Gen.IbanCfg Gen.Banks.
 Import ListNotations.
 
@@ -56,6 +57,25 @@ Theorem C13_iban_pins : forall national cc0 reg pins ci bi draws s cc b r ps,
   field r k s = v.
 Proof. exact gen_random_iban_pins. Qed.
 
+(* BBAN.random returns a structure-conforming BBAN: every position holds a character of the class the country's BBAN
+   structure names for it, and the length is the country's.  Pins must be non-empty clean text (a pinned value that does
+   not fit its field's classes makes every attempt fail: the overflow error, not a non-conforming BBAN); the draws need
+   only have the BBAN length - a draw of the wrong classes is rejected by from_components and the loop tries the next *)
+Theorem C13_conforms : forall cc0 reg pins ci bi draws cc b r ps,
+  random_bban' cc0 reg pins ci bi draws = Ok (cc, b) ->
+  find_row the_table cc = Some r -> r_positions r = Some ps ->
+  (forall k v, In (k, v) pins -> cleaned the_env v = true /\ v <> []) ->
+  (forall d, In d draws -> cleaned the_env (upper the_env d) = true /\ len (upper the_env d) = r_bban_length r) ->
+  conforms_row r b = true.
+Proof. exact gen_random_conforms. Qed.
+
+(* a country without published positions: the draw itself comes back (upper-cased), so it conforms iff rstr's draw does *)
+Theorem C13_no_positions : forall cc0 reg pins ci bi draws cc b r,
+  random_bban' cc0 reg pins ci bi draws = Ok (cc, b) ->
+  find_row the_table cc = Some r -> r_positions r = None ->
+  exists d rest, draws = d :: rest /\ b = clean the_env (upper the_env d).
+Proof. exact gen_random_no_positions. Qed.
+
 (* a registry-based draw (bank and branch code not pinned) belongs to a listed bank: in a country all of whose registry
    entries carry a bank code of the width of the bank-identifying field (all_fit: bank code, or bank code followed by
    branch code), the bank found from the BBAN's own bank-identifying field is a listed bank of that country *)
@@ -86,6 +106,8 @@ Print Assumptions C13_library_errors_only.
 Print Assumptions C13_pins.
 Print Assumptions C13_iban_pins.
 Print Assumptions C13_listed_bank.
+Print Assumptions C13_conforms.
+Print Assumptions C13_no_positions.
 
 From Coq Require Import String.
 Open Scope list_scope.
@@ -95,3 +117,11 @@ Proof. vm_compute. reflexivity. Qed.
 (* the listed-bank theorem is not vacuous: e.g. Germany, the United Kingdom and the Netherlands qualify *)
 Example C13_ex_fit : all_fit (tx "DE") = true /\ all_fit (tx "GB") = true /\ all_fit (tx "NL") = true.
 Proof. repeat split; vm_compute; reflexivity. Qed.
+(* the conformity theorem is not vacuous: a British draw whose bank field holds digits is rejected by from_components,
+   the next draw (letters there) is used, and the result conforms *)
+Example C13_ex_conforms :
+  exists r, find_row the_table (tx "GB") = Some r /\
+    random_bban' (tx "GB") false [] 0 0 [tx "1234" ++ tx "12345612345678"; tx "nwbk" ++ tx "60161331926819"]
+      = Ok (tx "GB", tx "NWBK60161331926819") /\
+    conforms_row r (tx "NWBK60161331926819") = true /\ conforms_row r (tx "123412345612345678") = false.
+Proof. eexists. split; [vm_compute; reflexivity|]. repeat split; vm_compute; reflexivity. Qed.
